@@ -60,6 +60,7 @@ type h18Res struct {
 	exp, ser int  // indices into h18Stamps
 	role     byte // 'T' numerator, 'B' denominator
 	name     byte
+	nh       byte // numerator hash override (0: a function of the series instant, as in real data)
 }
 
 func (r h18Res) build(i int) *benchfmt.Result {
@@ -71,7 +72,11 @@ func (r h18Res) build(i int) *benchfmt.Result {
 	add("ser", h18Stamps[r.ser])
 	add("role", string([]byte{r.role}))
 	// hashes are functions of the series / experiment, as in real data
-	add("nh", "n"+string([]byte{'0' + byte(h18Instant[r.ser])}))
+	if r.nh != 0 {
+		add("nh", "n"+string([]byte{r.nh}))
+	} else {
+		add("nh", "n"+string([]byte{'0' + byte(h18Instant[r.ser])}))
+	}
 	add("dh", "d"+string([]byte{'0' + byte(r.exp)}))
 	res.Values = []benchfmt.Value{{Value: h18Val(i), Unit: "u"}}
 	return res
@@ -472,4 +477,32 @@ func H18AddBetween() {
 	vndReach("h18:add-between")
 	vndAssert(err0 == nil && err1 == nil, "no-error")
 	vndAssert(h18Render(css) == h18Run(rs, order, dupe), "series-after-more-results-equal-those-of-a-fresh-builder")
+}
+
+// H18SameStamp: two commits with the same commit time (two numerator hashes, one series
+// stamp) measured in one experiment, plus baselines that mention either hash: whichever
+// order the results are added in, the same hash pair, samples and points result.
+func H18SameStamp() {
+	dupe := vndParam("dupe")
+	rs := []h18Res{
+		{exp: 0, ser: 1, role: 'T', name: 'P', nh: 'a'},
+		{exp: 0, ser: 1, role: 'T', name: 'P', nh: 'b'},
+		{exp: 0, ser: 1, role: 'B', name: 'P', nh: []byte{'a', 'b'}[vndChoice("baseline-mentions", 2)]},
+		{exp: vndChoice("exp", 2), ser: 1, role: 'T', name: 'P', nh: []byte{'a', 'b'}[vndChoice("hash", 2)]},
+	}
+	n := len(rs)
+	order := make([]int, n)
+	for i := range order {
+		order[i] = i
+	}
+	ref := h18Run(rs, order, dupe)
+	perm := append([]int(nil), order...)
+	for i := n - 1; i > 0; i-- {
+		j := vndChoice("perm", i+1)
+		perm[i], perm[j] = perm[j], perm[i]
+	}
+	got := h18Run(rs, perm, dupe)
+	vndReach("h18:same-stamp")
+	vndAssert(got == ref, "series-independent-of-add-order-and-map-order")
+	vndObserveStr("series", ref)
 }
